@@ -532,8 +532,10 @@ func TestC17(t *testing.T) {
 		runs := c17GenRuns(rng, pool, true)
 		rdns := i%3 != 0
 		flag := hx.Pick(rng, []string{"true", "1", "t", "TRUE", "True"})
-		do := func(skip string) (*result.Results, []byte, string) {
-			cache.Cache.Flush()
+		do := func(skip string, fresh bool) (*result.Results, []byte, string) {
+			if fresh {
+				cache.Cache.Flush()
+			}
 			var next atomic.Int64
 			traceroute.VerifSetRunOnce(func(ctx context.Context, p traceroute.TracerouteParams, port int) (*result.TracerouteRun, error) {
 				k := int(next.Add(1)) - 1
@@ -558,8 +560,11 @@ func TestC17(t *testing.T) {
 			res.Traceroute.Runs = c17SortRuns(res.Traceroute.Runs)
 			return &res, body, ""
 		}
-		off, _, e1 := do(hx.Pick(rng, []string{"", "false", "0"}))
-		on, body, e2 := do(flag)
+		// half of the pairs are what a polling client does: the same request again a moment later, now with
+		// the flag, with nothing reset in between (whatever the process keeps from the first request is there)
+		off, _, e1 := do(hx.Pick(rng, []string{"", "false", "0"}), true)
+		on, body, e2 := do(flag, i%2 == 0)
+		rep.Hit(fmt.Sprintf("http:second-request-fresh=%v", i%2 == 0))
 		rj := map[string]any{"scripted_runs": c17RunsJSON(runs), "reverse_dns": rdns, "query": "skip-private-hops=" + flag, "body": string(body),
 			"how": "server.NewServer().TracerouteHandler via httptest, runs stubbed with traceroute.VerifSetRunOnce, resolver c17ResolverNames"}
 		rep.Case("http", string(body), true, nil)
